@@ -667,6 +667,8 @@ def r12_pdo(run, fx):
 
 
 def check(run, fx, tier, floors=True):
+    import bsearch
+    bsearch.rule_bsearch(run, fx, "R12-BS", select=lambda b: b.file.startswith(('src/tables/variable_fonts', 'src/variations.rs', 'src/tables/glyf/variation.rs')), floors=floors, floor_n=1)
     import ignored
     ignored.run_for(run, fx, 'C12', floors)
     if floors or fx.body("<tables::variable_fonts::mvar::MvarTable<'_> as binary::read::ReadBinary>::read") is not None:
